@@ -514,7 +514,7 @@ public:
                        const sign_domain_t &inv) override {
     crab::CrabStats::count(domain_name() + ".count.backward_assign");
     crab::ScopedCrabStats __st__(domain_name() + ".backward_assign");
-    // TODO
+    BackwardAssignOps<sign_domain_t>::assign(*this, x, e, inv);
   }
 
   void backward_apply(crab::domains::arith_operation_t op, const variable_t &x,
@@ -522,7 +522,7 @@ public:
                       const sign_domain_t &inv) override {
     crab::CrabStats::count(domain_name() + ".count.backward_apply");
     crab::ScopedCrabStats __st__(domain_name() + ".backward_apply");
-    // TODO
+    BackwardAssignOps<sign_domain_t>::apply(*this, op, x, y, z, inv);
   }
 
   void backward_apply(crab::domains::arith_operation_t op, const variable_t &x,
@@ -530,7 +530,7 @@ public:
                       const sign_domain_t &inv) override {
     crab::CrabStats::count(domain_name() + ".count.backward_apply");
     crab::ScopedCrabStats __st__(domain_name() + ".backward_apply");
-    // TODO
+    BackwardAssignOps<sign_domain_t>::apply(*this, op, x, y, z, inv);
   }
 
   // cast operations
